@@ -1,6 +1,6 @@
 (* TxPhaseProofs.v — proofs about the model TxPhase.v (property C02). *)
 From Verif Require Import Base TxPhase.
-From Coq Require Import Sorting.Sorted.
+From Coq Require Import Sorting.Sorted String.
 Open Scope N_scope.
 
 Ltac sx := cbn [st_last st_engine st_intr st_dintr st_allow st_reqlen st_resplen st_conn st_uri
@@ -849,3 +849,166 @@ Proof.
   split; [reflexivity|].
   rewrite <- app_assoc. reflexivity.
 Qed.
+
+(* ---------------------------------------------------------------------------------- *)
+(* the status / target mapping of the three interrupting actions; the parser           *)
+(* ---------------------------------------------------------------------------------- *)
+
+Definition tp_redirect_codes : list N := [301; 302; 303; 307].
+
+Lemma redirect_status_in st : In (tp_redirect_status st) tp_redirect_codes.
+Proof.
+  unfold tp_redirect_status, tp_redirect_codes.
+  destruct (N.eqb_spec st 301) as [->|]; [cbn; auto|].
+  destruct (N.eqb_spec st 302) as [->|]; [cbn; auto|].
+  destruct (N.eqb_spec st 303) as [->|]; [cbn; auto|].
+  destruct (N.eqb_spec st 307) as [->|]; cbn; auto.
+Qed.
+
+Lemma redirect_status_keep st : In st tp_redirect_codes -> tp_redirect_status st = st.
+Proof. cbn. intros [<-|[<-|[<-|[<-|[]]]]]; reflexivity. Qed.
+
+Lemma redirect_status_default st : ~ In st tp_redirect_codes -> tp_redirect_status st = 302.
+Proof.
+  intro H. unfold tp_redirect_status.
+  destruct (N.eqb_spec st 301) as [->|]; [exfalso; apply H; cbn; auto|].
+  destruct (N.eqb_spec st 302) as [->|]; [exfalso; apply H; cbn; auto|].
+  destruct (N.eqb_spec st 303) as [->|]; [exfalso; apply H; cbn; auto|].
+  destruct (N.eqb_spec st 307) as [->|]; [exfalso; apply H; cbn; auto|]. reflexivity.
+Qed.
+
+Lemma status_mapping_holds r i :
+  tp_intr_of r = Some i ->
+  i_rule i = r_id r /\
+  match i_kind i with
+  | KDeny => r_act r = Some DDeny /\ i_data i = [] /\
+             (r_status r = 0 -> i_status i = 403) /\ (r_status r <> 0 -> i_status i = r_status r)
+  | KDrop => r_act r = Some DDrop /\ i_data i = [] /\ i_status i = r_status r
+  | KRedirect => r_act r = Some (DRedirect (i_data i)) /\ In (i_status i) tp_redirect_codes /\
+                 (In (r_status r) tp_redirect_codes -> i_status i = r_status r) /\
+                 (~ In (r_status r) tp_redirect_codes -> i_status i = 302)
+  end.
+Proof.
+  unfold tp_intr_of. destruct (r_act r) as [[]|]; try discriminate; intro H; inversion H; subst; cbn.
+  - split; [reflexivity|]. repeat split; intro E.
+    + rewrite E. reflexivity.
+    + destruct (N.eqb_spec (r_status r) 0); [contradiction | reflexivity].
+  - auto.
+  - split; [reflexivity|]. split; [reflexivity|]. split; [apply redirect_status_in|].
+    split; [apply redirect_status_keep | apply redirect_status_default].
+Qed.
+
+Lemma only_three_interrupt r :
+  tp_intr_of r = None <->
+  match r_act r with Some DDeny | Some DDrop | Some (DRedirect _) => False | _ => True end.
+Proof. unfold tp_intr_of. destruct (r_act r) as [[]|]; split; intro H; try exact I; try reflexivity; try discriminate; contradiction. Qed.
+
+Lemma last_dact_snoc l a : tp_last_dact (l ++ [a]) = Some a.
+Proof. unfold tp_last_dact. rewrite rev_app_distr. reflexivity. Qed.
+
+Lemma compile_keeps_own ds r a :
+  tp_last_dact (rr_dacts r) = Some a -> tp_is_block a = false -> r_act (tp_compile_rule ds r) = Some a.
+Proof.
+  intros H Hb. unfold tp_compile_rule. rewrite H.
+  destruct (tp_defaults_for ds (rr_phase r)); cbn; [rewrite Hb|]; reflexivity.
+Qed.
+
+Lemma compile_block_inherits ds r d :
+  (tp_last_dact (rr_dacts r) = Some DBlock \/ tp_last_dact (rr_dacts r) = None) ->
+  tp_defaults_for ds (rr_phase r) = Some d ->
+  r_act (tp_compile_rule ds r) = tp_last_dact (df_dacts d) /\
+  r_status (tp_compile_rule ds r) =
+    match rr_status r with Some n => n | None => match df_status d with Some n => n | None => 0 end end.
+Proof.
+  intros H Hd. unfold tp_compile_rule. rewrite Hd. destruct H as [-> | ->]; cbn; split; reflexivity.
+Qed.
+
+Lemma compile_block_without_default ds r :
+  tp_last_dact (rr_dacts r) = Some DBlock -> tp_defaults_for ds (rr_phase r) = None ->
+  tp_intr_of (tp_compile_rule ds r) = None.
+Proof.
+  intros H Hd. unfold tp_compile_rule. rewrite Hd, H. reflexivity.
+Qed.
+
+(* ---------------------------------------------------------------------------------- *)
+(* non-vacuity: concrete configurations and call orders                                 *)
+(* ---------------------------------------------------------------------------------- *)
+
+(* deny 401 as 2nd rule of phase 1 (needs the request header), block under a drop default in
+   phase 3, redirect 308 in phase 4, deny in phase 5; counters around them *)
+Definition ex_waf (e : tp_mode) : tp_waf :=
+  mkWaf e [mkDef 3 [DDrop] (Some 418)]
+    [ mkRaw 10 1 CTrue None None [DPass] None;
+      mkRaw 11 1 CReqHdr None None [DDeny] (Some 401);
+      mkRaw 12 1 CTrue None None [DPass] None;
+      mkRaw 20 2 CUri (Some CConn) None [DPass; DDeny] None;
+      mkRaw 30 3 CRespHdr None None [DDeny; DBlock] None;
+      mkRaw 40 4 CTrue None None [DRedirect (str "/x"%string)] (Some 308);
+      mkRaw 50 5 CTrue None None [DDeny] None;
+      mkRaw 51 5 CTrue None None [DPass] None ]
+    true 8%Z LReject true 8%Z LPartial.
+
+(* repeated, skipped and out-of-order calls; interruption reached in phase 1 *)
+Example ex_phase1 :
+  let s := tp_run (tp_compile (ex_waf MOn)) [KPRB; KReqHdr; KPRH; KPRH; KPRespB; KPRB; KPRespH; KLog; KLog] in
+  st_intr s = Some (mkIntr 11 KDeny 401 []) /\ st_last s = 5 /\
+  tp_matched (st_trace s) = [(10, true); (11, true); (50, true); (51, true); (50, true); (51, true)].
+Proof. vm_compute. auto. Qed.
+
+(* the header arrives too late for phase 1: the chain of rule 20 decides phase 2 *)
+Example ex_phase2 :
+  let s := tp_run (tp_compile (ex_waf MOn)) [KPRH; KReqHdr; KUri; KConn; KPRH; KWReq 3; KPRB; KPRB; KPRespH] in
+  st_intr s = Some (mkIntr 20 KDeny 403 []) /\ st_last s = 2.
+Proof. vm_compute. auto. Qed.
+
+(* phase 2 skipped by the caller: ProcessResponseHeaders still runs; block inherits drop, status 418 *)
+Example ex_phase3 :
+  let s := tp_run (tp_compile (ex_waf MOn)) [KPRH; KRespHdr; KPRespH; KPRB; KPRespB] in
+  st_intr s = Some (mkIntr 30 KDrop 418 []) /\ st_last s = 3.
+Proof. vm_compute. auto. Qed.
+
+(* redirect with a status outside the whitelist becomes 302 *)
+Example ex_phase4 :
+  let s := tp_run (tp_compile (ex_waf MOn)) [KPRespB; KPRH; KPRB; KPRespH; KPRespH; KWResp 9; KLog] in
+  st_intr s = Some (mkIntr 40 KRedirect 302 (str "/x"%string)) /\ st_last s = 5.
+Proof. vm_compute. auto. Qed.
+
+(* only ProcessLogging is called *)
+Example ex_phase5 :
+  let s := tp_run (tp_compile (ex_waf MOn)) [KLog; KPRH; KPRB] in
+  st_intr s = Some (mkIntr 50 KDeny 403 []) /\ tp_count_phase 1 (st_trace s) = 0%nat.
+Proof. vm_compute. auto. Qed.
+
+(* DetectionOnly: nothing is recorded, the would-be interruption is remembered, every phase runs *)
+Example ex_detection_only :
+  let c := tp_compile (ex_waf MDet) in
+  let ks := [KReqHdr; KPRH; KWReq 9; KPRB; KPRespH; KPRespB; KLog] in
+  tp_no_ctl_on c = true /\ st_intr (tp_run c ks) = None /\
+  st_dintr (tp_run c ks) = Some (mkIntr 11 KDeny 401 []) /\ st_last (tp_run c ks) = 5 /\
+  List.length (tp_matched (st_trace (tp_run c ks))) = 6%nat.
+Proof. vm_compute. auto 10. Qed.
+
+(* a body-limit rejection before any phase; the later deny of rule 11 does not replace it (F11) *)
+Example ex_limit_first :
+  let s := tp_run (tp_compile (ex_waf MOn)) [KReqHdr; KWReq 9; KPRH; KLog] in
+  st_intr s = Some (mkIntr 0 KDeny 413 []) /\ tp_count_phase 1 (st_trace s) = 0%nat.
+Proof. vm_compute. auto. Qed.
+
+(* the guard of the partial DetectionOnly theorem is satisfiable together with a ctl switch *)
+Example ex_partial_guard :
+  let w := mkWaf MOn [] [mkRaw 1 1 CTrue None (Some MDet) [DPass] None; mkRaw 2 2 CTrue None None [DDeny] None]
+                 true 8%Z LPartial true 8%Z LPartial in
+  let c := tp_compile w in
+  tp_no_ctl_on c = true /\ tp_limits_partial c = true /\
+  st_engine (tp_run c [KPRH]) = MDet /\
+  st_dintr (tp_run c [KPRH; KWReq 9]) = Some (mkIntr 2 KDeny 403 []) /\
+  st_intr (tp_run c [KPRH; KWReq 9]) = None.
+Proof. vm_compute. auto 10. Qed.
+
+(* the plain-configuration reading of a phase is not vacuous *)
+Example ex_plain :
+  let c := tp_compile (ex_waf MOn) in
+  let s := tp_run c [KReqHdr] in
+  tp_plain c = true /\ tp_spec_first s 1 (c_rules c) = Some (mkIntr 11 KDeny 401 []) /\
+  map r_id (tp_spec_evaluated s 1 false (c_rules c)) = [10; 11].
+Proof. vm_compute. auto. Qed.
